@@ -9,7 +9,11 @@ tvars == <<st, last, l>>
 Judge(ok, tag, exp) == IF ok THEN TRUE ELSE PrintT(<<"MISMATCH", l, tag, ToJson(exp)>>)
 
 ResEq(lr, xr) == /\ lr.k = xr.k
-                 /\ \A f \in DOMAIN xr \ {"k"} : f \in DOMAIN lr /\ lr[f] = xr[f]
+                 /\ \A f \in DOMAIN xr \ {"k", "e"} : f \in DOMAIN lr /\ lr[f] = xr[f]
+\* which refusal: any documented one that applies to the request (for from_regions there can be two)
+ErrOK(s, op, a, lr, xr) ==
+    (xr.k = "err" /\ lr.k = "err") =>
+        IF op = "from_regions" THEN lr.e \in FromErrSet(s.pool, a.ids) ELSE lr.e = xr.e
 
 PoolOK(s, ls) == /\ Len(ls.pool) = Len(s.pool)
                  /\ \A i \in 1 .. Len(s.pool) : ls.pool[i].s = s.pool[i].s /\ ls.pool[i].n = s.pool[i].n /\ ls.pool[i].tag = s.pool[i].tag
@@ -33,7 +37,7 @@ TraceNext ==
          THEN /\ st' = [pool |-> <<>>, maps |-> <<>>, ops |-> 0]
               /\ last' = [op |-> "init", a |-> e.a, r |-> Ok(0)]
          ELSE LET x == Apply(st, e.op, e.a) IN
-              /\ Judge(ResEq(e.r, x.r), "result", [res |-> x.r])
+              /\ Judge(ResEq(e.r, x.r) /\ ErrOK(st, e.op, e.a, e.r, x.r), "result", [res |-> x.r])
               /\ Judge(PoolOK(x.st, e.s) /\ MapsOK(x.st, e.s), "maps", [pool |-> x.st.pool, maps |-> x.st.maps])
               /\ st' = Logged(st, e.s)
               /\ last' = [op |-> e.op, a |-> e.a, r |-> x.r]
